@@ -229,7 +229,7 @@ package common
 //@   -- C02, per-input signature maps: for every input k that spends a script / node-remove output and every index i of its signature map,
 //@   -- i is a key index of that output and the submitted signature is valid for key i over `hash` (BatchVerify said so); the number of
 //@   -- distinct indices reaches the output's threshold
-//@   ensures [c02-batch] err == nil && tx.AggregatedSignature == nil ==> forall k int, i uint16 :: 0 <= k && k < len(tx.Inputs) && OrdInputs(&tx.Transaction) &&
+//@   ensures [c02-batch] err == nil && tx.AggregatedSignature == nil ==> forall k int, i uint16 :: {tx.Inputs[k], has(tx.SignaturesMap[k], i)} 0 <= k && k < len(tx.Inputs) && OrdInputs(&tx.Transaction) &&
 //@       SignedType(InputUtxoType(store, tx.Inputs[k])) && has(tx.SignaturesMap[k], i) ==> i < InKeyCount(store, tx.Inputs[k]) &&
 //@       crypto.SigOK(seq(InKeyVal(store, tx.Inputs[k], i)), seq(hash), seq(*tx.SignaturesMap[k][i]))
 //@   ensures [c02-threshold] err == nil && tx.AggregatedSignature == nil && OrdInputs(&tx.Transaction) ==> forall k int :: {tx.Inputs[k]} 0 <= k && k < len(tx.Inputs) &&
@@ -243,7 +243,7 @@ package common
 //@           exists lo, n int :: {Witness2(lo, n)} Witness2(lo, n) && n >= InThreshold(store, tx.Inputs[k]) &&
 //@               AggWindow(tx.AggregatedSignature.Signers, lo, n, KeyOff(store, &tx.Transaction, k), KeyOff(store, &tx.Transaction, k) + InKeyCount(store, tx.Inputs[k])))
 //@   ensures [c02-agg-verified] err == nil && tx.AggregatedSignature != nil && OrdInputs(&tx.Transaction) ==>
-//@       forall k, i int :: 0 <= k && k < len(tx.Inputs) && SignedType(InputUtxoType(store, tx.Inputs[k])) && InAggWindow(store, tx, k, i) ==>
+//@       forall k, i int :: {tx.Inputs[k], tx.AggregatedSignature.Signers[i]} 0 <= k && k < len(tx.Inputs) && SignedType(InputUtxoType(store, tx.Inputs[k])) && InAggWindow(store, tx, k, i) ==>
 //@           crypto.AggSigner(seq(tx.AggregatedSignature.Signature), seq(hash), len(tx.AggregatedSignature.Signers), i, tx.AggregatedSignature.Signers[i],
 //@               seq(InKeyVal(store, tx.Inputs[k], tx.AggregatedSignature.Signers[i] - KeyOff(store, &tx.Transaction, k))))
 //@   loop 0 invariant [c02-alllen] len(allKeys) == KeyOff(store, &tx.Transaction, rangeindex + 1)
@@ -295,11 +295,12 @@ package common
 //@ spec DecodedShape(ver *VersionedTransaction) bool = InputsOK(&ver.Transaction) && OutputsOK(&ver.Transaction) && OutKeysOK(&ver.Transaction) && OutKeysOld(&ver.Transaction)
 
 //@ func (ver *VersionedTransaction) Validate
-//@   property C05, C01
+//@   property C05, C01, C02
 //@   requires ver != nil && store != nil && DecodedShape(ver) && snapTime >= CustodianGenesis(store)
 //@   requires [decoded] DecodedTx(&ver.SignedTransaction) -- proved for every decoded transaction by C06 (unmarshalVersionedTransaction)
 //@   requires [preexisting] OutsOK(&ver.Transaction) -- objects reachable from the argument exist before the call (typing)
 //@   requires [c02-preexisting] SigMapsExist(&ver.SignedTransaction) -- likewise the signature maps
+//@   requires [c02-typing] SigsNotHashCache(ver) -- a *crypto.Signature never points to the Hash field ver.hash (Go typing; the engine has no typed pointers)
 //@   -- frame: Validate caches sizes/hashes inside ver (and, through validateNodeRemove, the hash cache of a store-returned
 //@   -- transaction, which no caller can observe). Assumed, not checked (noframe): used by the C31 batch loop.
 //@   modifies ver.hash, ver.pmbytes, ver.validatedSize
@@ -317,6 +318,43 @@ package common
 //@   ensures [c01-input-positive] err == nil ==> old(TxInAmount(store, &ver.Transaction) > 0)
 //@   ensures [c01-asset] err == nil ==> old(forall k int :: 0 <= k && k < len(ver.Inputs) && OrdInput(ver.Inputs[k]) ==>
 //@       InLedger(store, ver.Inputs[k]) && InputAssetIs(store, ver.Inputs[k], ver.Asset))
+//@   -- C02 (the property statement; old state = the transaction as passed in): every ordinary input k that spends a script / node-remove output is
+//@   -- authorised over the payload hash PayloadHashOf(ver). Signature maps: every index i of SignaturesMap[k] is a key index of the spent output and
+//@   -- the signature under i verifies for that key; the number of (distinct) indices reaches the output's threshold. Aggregate signature: exactly the
+//@   -- signers Signers[lo .. lo+n) fall into input k's window of the concatenated key lists, n reaches the threshold, and AggregateVerify accepted
+//@   -- the signature over the transcript that pairs each such signer with the key of that window.
+//@   -- proof guidance (checked): the C02 clauses are established once, right after validateInputs returned, in terms of the entry state (old); the
+//@   -- postconditions below then restate them at every return (for a mint / deposit transaction the single input is not ordinary: vacuous there)
+//@   hint after validateInputs [c02-keyoff-old] forall k int :: {ver.Inputs[k]} 0 <= k && k < len(ver.Inputs) ==>
+//@       KeyOff(store, &ver.Transaction, k) == old(KeyOff(store, &ver.Transaction, k))
+//@   hint after validateInputs [c02-inhash-old] forall k int :: {ver.Inputs[k]} 0 <= k && k < len(ver.Inputs) ==> ver.Inputs[k].Hash == old(ver.Inputs[k].Hash)
+//@   hint after validateInputs [c02-aggsig-old] ver.AggregatedSignature != nil ==> seq(ver.AggregatedSignature.Signature) == old(seq(ver.AggregatedSignature.Signature))
+//@   hint after validateInputs [h-c02-sigs] callerr == nil && txType != TransactionTypeMint && txType != TransactionTypeDeposit ==> old(ver.AggregatedSignature == nil ==> forall k int, i uint16 :: {ver.Inputs[k], has(ver.SignaturesMap[k], i)} 0 <= k && k < len(ver.Inputs) && OrdInput(ver.Inputs[k]) &&
+//@       SignedType(InputUtxoType(store, ver.Inputs[k])) && has(ver.SignaturesMap[k], i) ==> i < InKeyCount(store, ver.Inputs[k]) &&
+//@       crypto.SigOK(seq(InKeyVal(store, ver.Inputs[k], i)), seq(PayloadHashOf(ver)), seq(*ver.SignaturesMap[k][i])))
+//@   hint after validateInputs [h-c02-threshold] callerr == nil && txType != TransactionTypeMint && txType != TransactionTypeDeposit ==> old(ver.AggregatedSignature == nil ==> forall k int :: {ver.Inputs[k]} 0 <= k && k < len(ver.Inputs) && OrdInput(ver.Inputs[k]) &&
+//@       SignedType(InputUtxoType(store, ver.Inputs[k])) ==> k < len(ver.SignaturesMap) && SigCount(ver.SignaturesMap[k]) >= InThreshold(store, ver.Inputs[k]))
+//@   hint after validateInputs [h-c02-agg-threshold] callerr == nil && txType != TransactionTypeMint && txType != TransactionTypeDeposit ==> old(ver.AggregatedSignature != nil ==> forall k int :: {ver.Inputs[k]} 0 <= k && k < len(ver.Inputs) && OrdInput(ver.Inputs[k]) &&
+//@       SignedType(InputUtxoType(store, ver.Inputs[k])) ==> SignersOK(ver.AggregatedSignature.Signers) &&
+//@       (exists lo, n int :: {Witness2(lo, n)} Witness2(lo, n) && n >= InThreshold(store, ver.Inputs[k]) &&
+//@           AggWindow(ver.AggregatedSignature.Signers, lo, n, KeyOff(store, &ver.Transaction, k), KeyOff(store, &ver.Transaction, k) + InKeyCount(store, ver.Inputs[k]))))
+//@   hint after validateInputs [h-c02-agg-verified] callerr == nil && txType != TransactionTypeMint && txType != TransactionTypeDeposit ==> old(ver.AggregatedSignature != nil ==> forall k, i int :: {ver.Inputs[k], ver.AggregatedSignature.Signers[i]} 0 <= k && k < len(ver.Inputs) && OrdInput(ver.Inputs[k]) &&
+//@       SignedType(InputUtxoType(store, ver.Inputs[k])) && InAggWindow(store, &ver.SignedTransaction, k, i) ==>
+//@       crypto.AggSigner(seq(ver.AggregatedSignature.Signature), seq(PayloadHashOf(ver)), len(ver.AggregatedSignature.Signers), i, ver.AggregatedSignature.Signers[i],
+//@           seq(InKeyVal(store, ver.Inputs[k], ver.AggregatedSignature.Signers[i] - KeyOff(store, &ver.Transaction, k)))))
+//@   ensures [c02-sigs] err == nil ==> old(ver.AggregatedSignature == nil ==> forall k int, i uint16 :: {ver.Inputs[k], has(ver.SignaturesMap[k], i)} 0 <= k && k < len(ver.Inputs) && OrdInput(ver.Inputs[k]) &&
+//@       SignedType(InputUtxoType(store, ver.Inputs[k])) && has(ver.SignaturesMap[k], i) ==> i < InKeyCount(store, ver.Inputs[k]) &&
+//@       crypto.SigOK(seq(InKeyVal(store, ver.Inputs[k], i)), seq(PayloadHashOf(ver)), seq(*ver.SignaturesMap[k][i])))
+//@   ensures [c02-threshold] err == nil ==> old(ver.AggregatedSignature == nil ==> forall k int :: {ver.Inputs[k]} 0 <= k && k < len(ver.Inputs) && OrdInput(ver.Inputs[k]) &&
+//@       SignedType(InputUtxoType(store, ver.Inputs[k])) ==> k < len(ver.SignaturesMap) && SigCount(ver.SignaturesMap[k]) >= InThreshold(store, ver.Inputs[k]))
+//@   ensures [c02-agg-threshold] err == nil ==> old(ver.AggregatedSignature != nil ==> forall k int :: {ver.Inputs[k]} 0 <= k && k < len(ver.Inputs) && OrdInput(ver.Inputs[k]) &&
+//@       SignedType(InputUtxoType(store, ver.Inputs[k])) ==> SignersOK(ver.AggregatedSignature.Signers) &&
+//@       (exists lo, n int :: {Witness2(lo, n)} Witness2(lo, n) && n >= InThreshold(store, ver.Inputs[k]) &&
+//@           AggWindow(ver.AggregatedSignature.Signers, lo, n, KeyOff(store, &ver.Transaction, k), KeyOff(store, &ver.Transaction, k) + InKeyCount(store, ver.Inputs[k]))))
+//@   ensures [c02-agg-verified] err == nil ==> old(ver.AggregatedSignature != nil ==> forall k, i int :: {ver.Inputs[k], ver.AggregatedSignature.Signers[i]} 0 <= k && k < len(ver.Inputs) && OrdInput(ver.Inputs[k]) &&
+//@       SignedType(InputUtxoType(store, ver.Inputs[k])) && InAggWindow(store, &ver.SignedTransaction, k, i) ==>
+//@       crypto.AggSigner(seq(ver.AggregatedSignature.Signature), seq(PayloadHashOf(ver)), len(ver.AggregatedSignature.Signers), i, ver.AggregatedSignature.Signers[i],
+//@           seq(InKeyVal(store, ver.Inputs[k], ver.AggregatedSignature.Signers[i] - KeyOff(store, &ver.Transaction, k)))))
 
 // ───────────── type-specific validators ─────────────
 
